@@ -64,8 +64,8 @@ Section Main.
   Lemma is_nil_eq {A} (l l' : list A) : is_nil l = true -> is_nil l' = true -> l = l'.
   Proof. destruct l, l'; try discriminate. reflexivity. Qed.
 
-  Lemma calc_fields ve e e' : expr_calc H vhash pickle ve e = expr_calc H vhash pickle ve e' ->
-    e_kind e = e_kind e' /\ expr_fields H vhash pickle ve e = expr_fields H vhash pickle ve e'.
+  Lemma calc_fields ve nm e e' : expr_calc H vhash pickle ve nm e = expr_calc H vhash pickle ve nm e' ->
+    e_kind e = e_kind e' /\ expr_fields H vhash pickle ve nm e = expr_fields H vhash pickle ve nm e'.
   Proof.
     unfold expr_calc, expr_pre. intros E. apply H_inj, layout_inj in E. destruct E as [E1 E2].
     split; auto. now apply tag_inj.
@@ -77,7 +77,7 @@ Section Main.
 
   (** repaired SchedulerExpression hash: equal hashes, same call *)
   Theorem same_hash_same_call_fixed e e' : wf e -> wf e' ->
-    expr_calc H vhash pickle Fixed e = expr_calc H vhash pickle Fixed e' -> same_call e e'.
+    expr_calc H vhash pickle Fixed [] e = expr_calc H vhash pickle Fixed [] e' -> same_call e e'.
   Proof.
     intros W W' E. apply calc_fields in E. destruct E as [K E]. unfold same_call. split; auto.
     unfold expr_fields in E. rewrite <- K in E. destruct (e_kind e) eqn:Ke.
@@ -94,7 +94,7 @@ Section Main.
 
   (** as shipped: everything but the options of scheduler expressions *)
   Theorem same_hash_same_call_shipped e e' : wf e -> wf e' ->
-    expr_calc H vhash pickle AsShipped e = expr_calc H vhash pickle AsShipped e' -> same_call_weak e e'.
+    expr_calc H vhash pickle AsShipped [] e = expr_calc H vhash pickle AsShipped [] e' -> same_call_weak e e'.
   Proof.
     intros W W' E. apply calc_fields in E. destruct E as [K E]. unfold same_call_weak. split; auto.
     unfold expr_fields in E. rewrite <- K in E. destruct (e_kind e) eqn:Ke.
@@ -114,19 +114,34 @@ Section Main.
 
   (** as shipped, a scheduler expression's hash does not see its options at all *)
   Theorem scheduler_options_invisible e o ex o' ex' : e_kind e = KScheduler ->
-    expr_calc H vhash pickle AsShipped (with_options e o ex) = expr_calc H vhash pickle AsShipped (with_options e o' ex').
+    expr_calc H vhash pickle AsShipped [] (with_options e o ex) = expr_calc H vhash pickle AsShipped [] (with_options e o' ex').
   Proof.
     intros K. unfold expr_calc, expr_pre, expr_fields. cbn [e_kind with_options]. rewrite K. reflexivity.
   Qed.
 
-  (** the cache in [_hash] *)
-  Definition cache_ok ve e : Prop := e_hash e = None \/ e_hash e = Some (expr_calc H vhash pickle ve e).
+  Definition with_name e (n : bytes) : expr value :=
+    {| e_kind := e_kind e; e_name := n; e_args := e_args e; e_kwargs := e_kwargs e;
+       e_options := e_options e; e_export := e_export e; e_value := e_value e; e_length := e_length e;
+       e_hash := e_hash e; e_call_hash := e_call_hash e; e_upstreams := e_upstreams e |}.
 
-  Lemma get_hash_calc ve e : cache_ok ve e -> get_hash H vhash pickle ve e = expr_calc H vhash pickle ve e.
+  (** if operator names are replaced before hashing, an operator and the name it is mapped to collide
+      on the same operands (the operand tuple of [x + v] and [v + x] is the same) *)
+  Theorem simple_name_map_collides ve nm r f e : e_kind e = KSimple ->
+    lookup_b r nm = Some f -> lookup_b f nm = None ->
+    expr_calc H vhash pickle ve nm (with_name e r) = expr_calc H vhash pickle ve nm (with_name e f).
+  Proof.
+    intros K R F. unfold expr_calc, expr_pre, expr_fields, map_name. cbn [e_kind e_name with_name]. rewrite K.
+    rewrite R, F. reflexivity.
+  Qed.
+
+  (** the cache in [_hash] *)
+  Definition cache_ok ve nm e : Prop := e_hash e = None \/ e_hash e = Some (expr_calc H vhash pickle ve nm e).
+
+  Lemma get_hash_calc ve nm e : cache_ok ve nm e -> get_hash H vhash pickle ve nm e = expr_calc H vhash pickle ve nm e.
   Proof. unfold get_hash. intros [-> | ->]; reflexivity. Qed.
 
-  Theorem merge_only_same_call_fixed j j' e e' : wf e -> wf e' -> cache_ok Fixed e -> cache_ok Fixed e' ->
-    merge_key H vhash pickle Fixed j e = merge_key H vhash pickle Fixed j' e' -> j = j' /\ same_call e e'.
+  Theorem merge_only_same_call_fixed j j' e e' : wf e -> wf e' -> cache_ok Fixed [] e -> cache_ok Fixed [] e' ->
+    merge_key H vhash pickle Fixed [] j e = merge_key H vhash pickle Fixed [] j' e' -> j = j' /\ same_call e e'.
   Proof.
     unfold merge_key. intros W W' C C' E. injection E as -> E. split; auto.
     rewrite !get_hash_calc in E by assumption. now apply same_hash_same_call_fixed.
@@ -159,14 +174,14 @@ Section Main.
     | KValue => e_value e <> None /\ e_name e = [] /\ e_args e = [] /\ e_kwargs e = [] /\ e_options e = [] /\ e_export e = []
     end.
 
-  Theorem pickle_roundtrip ve e : class_wf e ->
+  Theorem pickle_roundtrip ve nm e : class_wf e ->
     exists e', rt e = Some e' /\
       e_kind e' = e_kind e /\ e_name e' = e_name e /\ e_args e' = e_args e /\ e_kwargs e' = e_kwargs e /\
       e_options e' = e_options e /\ e_export e' = e_export e /\ e_value e' = e_value e /\
       (match e_kind e with KTask | KScheduler => e_length e' = e_length e | _ => e_length e' = None end) /\
       cleared e' /\
-      expr_calc H vhash pickle ve e' = expr_calc H vhash pickle ve e /\
-      get_hash H vhash pickle ve e' = expr_calc H vhash pickle ve e.
+      expr_calc H vhash pickle ve nm e' = expr_calc H vhash pickle ve nm e /\
+      get_hash H vhash pickle ve nm e' = expr_calc H vhash pickle ve nm e.
   Proof.
     intros W. unfold roundtrip, getstate, class_wf in *. destruct (e_kind e) eqn:K.
     1,2: eexists; split; [reflexivity|]; cbn; rewrite args_rt, kwargs_rt; repeat split; auto;
